@@ -174,13 +174,14 @@ void World::deliver_flight(Flight &f) {
     case FL_DGRAM: {
       Dgram d; d.data = f.data; d.src = f.src; d.resp_id = f.resp_id;
       s->inq.push_back(d);
-      if (f.resp_id >= 0) { resps[f.resp_id].delivered_to_socket = true; resps[f.resp_id].delivered_at = now_us; }
+      if (f.resp_id >= 0) { resps[f.resp_id].delivered_to_socket = true; resps[f.resp_id].delivered_at = now_us; if (on_arrival) on_arrival(resps[f.resp_id], *s); }
       break;
     }
     case FL_TCP_BYTES:
       if (s->tstate == TS_ESTABLISHED && !s->peer_closed) {
         s->instream += f.data;
-        if (f.resp_id >= 0) { resps[f.resp_id].delivered_to_socket = true; resps[f.resp_id].delivered_at = now_us; }
+        s->in_added += f.data.size();
+        if (f.resp_id >= 0) { resps[f.resp_id].delivered_to_socket = true; resps[f.resp_id].delivered_at = now_us; s->in_marks.emplace_back(s->in_added, f.resp_id); if (on_arrival) on_arrival(resps[f.resp_id], *s); }
       }
       break;
     case FL_TCP_CONNECTED:
@@ -486,6 +487,7 @@ ssize_t sim_recvfrom(int fd, void *buf, size_t n, int flags, struct sockaddr *sa
     memcpy(buf, d.data.data(), k);
     if (sa && sl) *sl = addr_to_sockaddr(d.src, sa, *sl);
     W.log(C_RECVFROM, fd, (long)k, 0, d.resp_id);
+    if (d.resp_id >= 0) { W.resps[(size_t)d.resp_id].read_times.push_back(W.now_us); W.resps[(size_t)d.resp_id].read_seqs.push_back(W.seq); }
     return (ssize_t)k;
   }
   // TCP
@@ -507,6 +509,8 @@ ssize_t sim_recvfrom(int fd, void *buf, size_t n, int flags, struct sockaddr *sa
   size_t k = f->instream.size() < limit ? f->instream.size() : limit;
   memcpy(buf, f->instream.data(), k);
   f->instream.erase(0, k);
+  f->in_read += k;
+  while (!f->in_marks.empty() && f->in_marks.front().first <= f->in_read) { Resp &rr_ = W.resps[(size_t)f->in_marks.front().second]; rr_.read_times.push_back(W.now_us); rr_.read_seqs.push_back(W.seq); f->in_marks.pop_front(); }
   if (k < n && !f->instream.empty()) W.bump("recv_short");
   W.log(C_RECVFROM, fd, (long)k, 0);
   return (ssize_t)k;
